@@ -30,6 +30,8 @@ type fileSpec struct {
 	GoGates bool              `json:"go_gates"` // insert vrt.Yield at the start of goroutine bodies / before channel sends
 	Replace []replSpec        `json:"replace"`  // exact, unique textual replacements (e.g. a map range made explorer-ordered)
 	NeedVrt bool              `json:"need_vrt"` // add the zzvrt import (used by replacements)
+	// AddImports: local name -> shim package to import additionally (used by replacements), e.g. {"zzvnet": "vnet"}
+	AddImports map[string]string `json:"add_imports"`
 }
 
 type replSpec struct {
@@ -101,6 +103,9 @@ func main() {
 		}
 		if needVrt {
 			addImport(f, shimBase+"vrt", "zzvrt")
+		}
+		for local, shim := range fs.AddImports {
+			addImport(f, shimBase+shim, local)
 		}
 		var buf bytes.Buffer
 		if err := printer.Fprint(&buf, fset, f); err != nil {
